@@ -374,6 +374,14 @@ class HTMLUnicodeInputStream(object):
                 # chunk:
                 self.chunk = char + self.chunk
                 self.chunkSize += 1
+                # It has already been counted in the position of the start
+                # of the chunk, so take it out again (the column before a
+                # newline is unknown here; it is right again once the
+                # newline has been consumed)
+                if char == "\n":
+                    self.prevNumLines -= 1
+                else:
+                    self.prevNumCols -= 1
             else:
                 self.chunkOffset -= 1
                 assert self.chunk[self.chunkOffset] == char
